@@ -8,6 +8,7 @@ from . import common
 from .common import call, RAISED
 
 CAP = {'quick': 600, 'thorough': 1500}
+BIGSEED_CAP = 2600
 
 META = {
     'rule': ('cases: the standard context stream. Per lattice: upset() and downset() of every '
@@ -23,7 +24,7 @@ META = {
     'required_counters': ['judged_upset', 'judged_downset', 'judged_upset_union', 'judged_downset_union',
                           'judged_empty_seeds', 'judged_abandoned', 'results_with_multipath_member',
                           'seeds_with_repeats', 'seeds_with_comparable_members', 'interleaved_traversals',
-                          'judged_orphaned_concepts'],
+                          'judged_orphaned_concepts', 'bigseed_cases'],
     'shards': {'quick': 16, 'thorough': 16},
     'exhaustive': {'quick': 'all tables <= 3x3 x all concepts, all seed pairs',
                    'thorough': 'all tables <= 3x3, 3x4, 4x3, 4x4 x all concepts, all seed pairs'},
@@ -182,7 +183,37 @@ def setup(concepts, spec):
     POOL = common.Pool(4)
 
 
+def bigseed_cases(tier):
+    for n in ([10] if tier == 'quick' else [10, 11]):
+        full = (1 << n) - 1
+        yield dict(gen.case(f'BIGSEEDS:contranominal{n}', [full & ~(1 << i) for i in range(n)], n, 'rev'), bigseeds=True)
+
+
+def run_bigseeds(concepts, case, spec):
+    """Unions seeded with more than 1 000 distinct concepts (lattices of 1 024 / 2 048 concepts)."""
+    rng = common.rng_for(case, spec)
+    ctx = common.build_or_skip(concepts, case)
+    if ctx is None:
+        return
+    sh = attach.shadow_of(ctx)
+    sh.cap_override = BIGSEED_CAP
+    lat = common.get_lattice(ctx)
+    if lat is RAISED:
+        return
+    members = list(lat)
+    COL.count('bigseed_cases')
+    for size in (1001, 1010, len(members)):
+        seeds = rng.sample(members, min(size, len(members)))
+        call(list, lat.upset_union(seeds))
+        call(list, lat.downset_union(seeds))
+    mid = [c for c in members if len(c.extent) == sh.n // 2]
+    if len(mid) > 120:
+        call(list, lat.upset_union(mid[:1100] + members[:5]))
+        call(list, lat.downset_union(mid[:1100] + members[-5:]))
+
+
 def cases(tier, seed, spec):
+    yield from bigseed_cases(tier)
     yield from gen.biglat(tier)
     yield from gen.ctx_stream(tier, seed)
 
@@ -246,6 +277,8 @@ ORPHANS = []
 
 
 def run_case(concepts, case, spec):
+    if case.get('bigseeds'):
+        return run_bigseeds(concepts, case, spec)
     if case.get('fam', '').startswith('BIGLAT'):
         return run_biglat(concepts, case, spec)
     rng = common.rng_for(case, spec)
